@@ -134,8 +134,14 @@ fn run_one(sys: usize, len: usize, natt: usize, survivor: bool, obs: Observer, k
     let sentinel = b"__survivor__".to_vec();
     // the survivor's message carries one attachment of its own: a sender whose receiver stays here
     let (ptx, prx) = platform::channel().unwrap();
+    // (more descriptors than the interrupted message's first packet carried: a control buffer re-used after the discard
+    // must still have room for all of them)
     if let Some(s) = &surv {
-        s.send(&sentinel, vec![OsIpcChannel::Sender(ptx.clone())], vec![]).unwrap();
+        let mut atts = vec![OsIpcChannel::Sender(ptx.clone())];
+        for _ in 0..3 {
+            atts.push(OsIpcChannel::Sender(ptx.clone()));
+        }
+        s.send(&sentinel, atts, vec![]).unwrap();
     }
     drop(ptx);
     let deadline = std::time::Instant::now() + std::time::Duration::from_secs(8);
@@ -281,7 +287,7 @@ fn run_one(sys: usize, len: usize, natt: usize, survivor: bool, obs: Observer, k
     // every delivered message carries exactly its own attachments (the discarded message's must not show up anywhere)
     for (i, d) in got.iter().enumerate() {
         let (ch, ns) = &mut got_att[i];
-        let want = if *d == sentinel { 1 } else if *d == full && i > 0 { natt } else { 0 };
+        let want = if *d == sentinel { 4 } else if *d == full && i > 0 { natt } else { 0 };
         if ch.len() != want || *ns != 0 {
             case.fail(format!(
                 "delivered message #{} ({} bytes) carries {} channel(s) and {} region(s) instead of its own {} channel(s): attachments of another (discarded) message were mixed in",
